@@ -29,6 +29,10 @@ def obligations(tier):
     obs.append(Ob('O6.5-tables-cultures', 'fn', 'harness.tables:audit_culture_tables', slices=[{'lang': l} for l in ('spanish', 'french', 'portuguese', 'german', 'italian', 'dutch')], timeout=t,
                   descr='audit (concrete, not a solver verdict): MonthOfYear / DayOfMonth / DayOfWeek tables of es, fr, pt, de, it, nl against independent month and weekday name lists',
                   encodes=[]))
+    obs.append(Ob('O6.5-keys-through-parser', 'fn', 'harness.datekeys:audit_keys', slices=[{'lang': l} for l in ('english', 'spanish', 'french', 'portuguese', 'german', 'italian', 'dutch')], timeout=max(t, 300),
+                  descr='audit through the real code (finite, exhaustive over table keys; not a solver verdict): every month key x day key of the maps each culture\'s parser configuration wires '
+                        '(names, abbreviations, numeric and zero-padded forms) goes through the real BaseDateParser with one date pattern made to match, with and without a year; the numeric keys 1..12 / 1..31 and 01..09 must be present',
+                  bounds='1 700 .. 8 300 key pairs per culture', encodes=[B + 'base_date:BaseDateParser.match_to_date', B + 'base_date:BaseDateParser.parse_basic_regex_match']))
     L = 'harness.layouts:'
     dl = [{'kind': 'date', 'culture': 'en-us', 'layout': l} for l in ('iso', 'slash', 'dash', 'month-d-y', 'month-dth-y', 'd-month-y', 'dth-of-month-y')]
     dl += [{'kind': 'date', 'culture': c, 'layout': l} for c in ('es-es', 'fr-fr', 'pt-br', 'de-de', 'it-it') for l in ('iso', 'slash', 'dash', 'd-month-y')]
